@@ -104,18 +104,19 @@ def stepOut (m : List (String × String)) (impl : String) : String × String :=
     | .ok msg =>
       match reDecode msg with
       | .error e =>
+        -- only an empty reply token (no request to answer) makes a response undecodable
         let mo := s!"undecodable:{e.str} gw=1"
-        -- the bridge emits a response its own Decode rejects: no request id to answer (empty reply token) is the
-        -- caller's business; a PONG that can never be decoded is the bridge's
-        let v := if impl != mo then "viol:bridge:" ++ firstDiff impl mo
-                 else if rid != [] then (match f with | .pong _ => "viol:pong-response-undecodable" | _ => "viol:undecodable-response") else "ok"
-        (mo, v)
+        (mo, if impl != mo then "viol:bridge:" ++ firstDiff impl mo else if rid != [] then "viol:undecodable-response" else "ok")
       | .ok dm =>
         let back := match toFrame dm with
           | .ok _ => "frame"
           | .error e => "err:" ++ e.str
         let mo := s!"{msgStr dm} back={back} gw=1"
-        (mo, if impl == mo then "ok" else "viol:bridge:" ++ firstDiff impl mo)
+        let v := if impl == mo then "ok"
+          else match f with
+            | .pong _ => if impl.startsWith "undecodable" then "viol:pong-response-undecodable" else "viol:bridge:" ++ firstDiff impl mo
+            | _ => "viol:bridge:" ++ firstDiff impl mo
+        (mo, v)
   | _, _ => ("bad-op", "ok")
 
 def stepIn (m : List (String × String)) (impl : String) : String × String :=
